@@ -1,6 +1,7 @@
 package xmp
 
 import (
+	"bytes"
 	"fmt"
 	"math"
 	"strconv"
@@ -56,8 +57,9 @@ func parseDate(buf []byte) (t time.Time, err error) {
 
 // parseUUID parses a UUID and returns a meta.UUID
 func parseUUID(buf []byte) (uuid meta.UUID) {
-	if _, b := readUntil(buf, ':'); len(b) > 0 {
-		buf = b
+	// the GUID follows the last colon: "xmp.did:…", "urn:uuid:…", "adobe:docid:photoshop:…"
+	if i := bytes.LastIndexByte(buf, ':'); i >= 0 {
+		buf = buf[i+1:]
 	}
 	err := uuid.UnmarshalText(buf)
 	if err != nil {
